@@ -126,6 +126,48 @@ def thereback_case(case):
     return r
 
 
+def continue_case(case):
+    """a run whose LAST step was clipped to land on the end point is continued to a later end point (two hops): the clipped step is not 'the requested
+    step' - the system still holds dt0 after the first hop, and every step of the second hop but its last has exactly that magnitude (dyadic lattice,
+    compared with ==)"""
+    de, I = lc._imports()
+    r = Res()
+    name = case["method"]
+    a, f, y0, dtype = lc.fresh(case)
+    r.n = 1
+    want = [float(case["t0"])]
+    for target in (case["t1"], case["t2"]):
+        obs = lc.apply_op(a, ("intT", target), dtype)
+        if obs["raised"]:
+            if obs["raised"] == "budget":
+                r.v("C04/runaway/%s" % name, "integration terminates", case, observed=dict(rows=len(a)), expected="terminates")
+            else:
+                r.add("raised"); r.out(("raised", name))
+            return r
+        want += driver.ref_grid(want[-1], target, case["dt0"])
+        if case.get("short"):
+            continue
+        if target == case["t1"] and abs(float(a.dt)) != abs(case["dt0"]):
+            r.v("C04/carried-step/%s" % name, "after a run whose last step was clipped the system still holds the requested step", case,
+                observed=dict(dt=float(a.dt)), expected=dict(magnitude=case["dt0"]))
+    T = [float(x) for x in a.t]
+    if case.get("short"):
+        # the first target is nearer than one step: the library may go there in shorter steps (and keeps them), but nothing it records afterwards is
+        # LONGER than the requested step, and both targets are met
+        steps = np.abs(np.diff(np.asarray(a.t, dtype=LD))).astype(float)
+        if len(steps) == 0 or steps.max() > abs(case["dt0"]) or T[-1] != float(case["t2"]) or float(case["t1"]) not in T:
+            r.v("C04/grid-continued-short/%s" % name, "no recorded step is longer than the requested dt, in any call", case,
+                observed=dict(longest=float(steps.max()) if len(steps) else None, end=T[-1], rows=len(T)), expected=dict(dt=case["dt0"], end=case["t2"]))
+        r.out(("continue-short", lc.family(name), case["dtype"], int(np.sign(case["t1"] - case["t0"]))))
+        return r
+    if T != want:
+        k = next((i for i, (x, y) in enumerate(zip(T, want)) if x != y), min(len(T), len(want)))
+        r.v("C04/grid-continued/%s" % name, "every step but the last of each call has exactly the requested magnitude", case,
+            observed=dict(first_diff_at=k, got=T[max(0, k - 1):k + 3], rows=len(T)), expected=dict(want=want[max(0, k - 1):k + 3], rows=len(want)))
+    r.out(("continue", lc.family(name), case["dtype"], int(np.sign(case["t1"] - case["t0"])), int(np.sign(case["t2"] - case["t1"]))))
+    return r
+
+
 def pend(sign=1.0, kind="pendulum"):
     if kind == "oscillator":
         def f(t, y, **kw):
@@ -210,6 +252,8 @@ def invariance_case(case):
 def run_case(case):
     if case["section"] == "thereback":
         return thereback_case(case)
+    if case["section"] == "continue":
+        return continue_case(case)
     return grid_case(case) if case["section"] == "grid" else (inexact_case(case) if case["section"] == "inexact" else invariance_case(case))
 
 
@@ -253,6 +297,16 @@ def run(ctx):
             for dt0 in (0.125, 0.25, 0.3):
                 for dn in (("float64",) if ctx.quick else lc.DT):
                     cases.append(dict(section="thereback", method=m, dtype=dn, t0=t0, tf=tf, dt0=dt0))
+    # two hops, the first ending off the step lattice (its last step is clipped), in every combination of directions and signs
+    for m in lc.FIXED_EXPLICIT + lc.SPLITTING:
+        for (t0, t1, t2) in ((0.0, 1.125, 2.0), (0.0, -1.125, -2.0), (2.0, 0.875, 0.0), (-2.0, -0.875, 0.0), (-1.0, 0.125, 1.0), (1.0, -0.125, -1.0),
+                             (0.0, 1.125, 0.0), (0.0, -1.125, 0.0), (-3.0, -1.875, -1.0), (-1.0, -2.125, -3.0)):
+            for dt0 in (0.25, 0.5):
+                for dn in (("float64",) if ctx.quick else lc.DT):
+                    cases.append(dict(section="continue", method=m, dtype=dn, rhs="osc", t0=t0, tf=t2 if t2 != t0 else t1, t1=t1, t2=t2, dt0=dt0))
+        for (t0, t1, t2) in ((0.0, 0.125, 2.0), (0.0, -0.125, -2.0), (2.0, 1.875, -1.0), (-1.0, -0.875, 3.0)):
+            for dn in (("float64",) if ctx.quick else lc.DT):
+                cases.append(dict(section="continue", short=True, method=m, dtype=dn, rhs="osc", t0=t0, tf=t2, t1=t1, t2=t2, dt0=0.5))
     allm = lc.FIXED_EXPLICIT + lc.SPLITTING + lc.ADAPTIVE_EXPLICIT + lc.IMPLICIT_FIXED + lc.IMPLICIT_ADAPTIVE
     ispans = [(0.0, 2.0), (-2.0, -0.5), (1.0, -1.0), (-3.0, 1.0), (3.0, 0.5)] if ctx.quick else [(float(a), float(b)) for a, b in spans if abs(a - b) <= 2]
     for m in allm:
